@@ -328,14 +328,25 @@ def run(tier, r):
         viol.extend(v)
 
     cases = [gen_case(r) for _ in range(ncases)]          # the whole schedule is a function of r only
-    # cases whose references come from fresh interpreters: several at a time (each spawns its own interpreters)
+    # cases whose references come from fresh interpreters: several at a time (each spawns its own interpreters), in chunks so
+    # that the time budget is respected; their results are used whatever the budget says afterwards
     from concurrent.futures import ThreadPoolExecutor
     fresh = [c for c in cases if c.get("fresh")]
+    pre = {}
     with ThreadPoolExecutor(6) as ex:
-        fresh_res = list(ex.map(lambda c: oc.guarded_any(run_case, c), fresh))
-    pre = {id(c): res for c, res in zip(fresh, fresh_res)}
+        for k in range(0, len(fresh), 12):
+            if bud.over(0.6):
+                stats["fresh_cases_skipped_for_time"] = len(fresh) - k
+                break
+            chunk = fresh[k:k + 12]
+            for c, res in zip(chunk, ex.map(lambda c_: oc.guarded_any(run_case, c_), chunk)):
+                pre[id(c)] = res
     for case in cases:
-        if bud.over() or len(viol) >= 8:
+        if id(case) not in pre and case.get("fresh"):
+            continue                                  # skipped for time
+        if id(case) not in pre and (bud.over() or len(viol) >= 8):
+            continue
+        if len(viol) >= 8:
             break
         account(case)
         if id(case) in pre:
